@@ -216,6 +216,13 @@ static std::string finding_class(const Cfg& c) {
   // parallel and the pole (radius a difference of nearly equal numbers) is off by far more than the condition number allows, also for one parallel
   if (c.f >= 0.9 && std::fmin(c1, c2) < 2e-4 && std::fmin(c1, c2) > 0 && (!distinct_parallels(c) || (s1 == s2 && c1 == c2))) t += " [class:oblate-init-accuracy]";
   if (!distinct_parallels(c) || (s1 == s2 && c1 == c2)) return t;
+  // F95 (open), its part in Init: the careful evaluation of 1 - n (taken for n >= 1/4) calls Dsinh on the pairs (xiZ, xi1), (xiZ, xi2), (xi1, xi2) of
+  // xi = eatanhe(sin phi); with parallels in opposite hemispheres two of the pairs have opposite signs and exp(2 |xi1|)/2 ulp are lost in 1 - n
+  // (xi1 of the parallel nearer the equator; |xi| = e atan(e |sin phi|) on a prolate ellipsoid, < e^2 on an oblate one) -- _nc is then off and the
+  // renormalisation n/hypot(n, nc) spoils n.  The class: LCC, f < 0, parallels in opposite hemispheres, exp(2 |xi1|) >= 256 kappa (n >= 1/4 is not
+  // tested: it is a property of the computed n)
+  if (c.cls == 1 && c.f < 0 && s1 * s2 < 0) { double e = std::sqrt(std::fabs(e2of(c.f))), xi1 = e * std::atan(e * std::fmin(std::fabs(s1), std::fabs(s2)));
+    if (std::exp(2 * xi1) >= 256 * kappa(c.f)) t += " [class:lcc-prolate-dsinh-init]"; }
   // F87 (open): f >= 0.5 (1/(1 - e^2) >= 4), two distinct parallels: the divided-difference evaluation of the cone constant and of the origin in
   // Init loses accuracy much faster than the problem's condition number (any pair: about 1/(1 - e^2)^2 ulp from f = 0.75 on); with a
   // parallel within 0.01 degrees of a pole (cosine < 2e-4) already from f > 0.1 on (1e6 ulp at f = 0.5)
